@@ -1660,7 +1660,13 @@ impl<'r> Sh<'r> {
     /// the error raised at the bottom lists every one of them; trapped, the program goes on
     /// and a later error in the main module lists none.
     fn deep_recursion_shape(&mut self) -> Scenario {
-        let depth = self.rng.range(100, 220) as i32;
+        // (one time in four beyond a thousand levels: an implementation that limits the
+        // depth must unwind what it had already set up for the call it refuses)
+        let depth = if self.rng.chance(1, 4) {
+            self.rng.range(1030, 1100) as i32
+        } else {
+            self.rng.range(100, 220) as i32
+        };
         let mode = self.rng.below(3); // 0 none, 1 ON ERROR RESUME NEXT, 2 handler RESUME NEXT
         let mut main = vec![self.trace(&[])];
         match mode {
